@@ -88,6 +88,14 @@ CHECKS.update({
   "DESIGN.md 4 C07"),
 })
 
+CHECKS.update({
+ "C13": ("model_checking", "histx",
+  "explicit-state breadth-first search over event histories with canonical-state de-duplication; every transition runs the real status.SetApprove/SetCompare on a real directory tree and the real missing-approve binary; invariants must-list / must-omit from an independently tracked reference (latest conclusive observation) are evaluated in every reached state",
+  "All event sequences of the statement's alphabet up to depth 5 (thorough 7) are covered through BFS over canonical states; the reference automaton is 15 lines and tracks only the event list. Every transition is an implementation run, so there is no model/implementation gap.",
+  "Status is written through the status package as do-approve does after a run; clock strictly increasing.",
+  "DESIGN.md 4 C13 + appendix D"),
+})
+
 NOT_YET = "check not built yet in this round (design in DESIGN.md section 4); no technique switch intended"
 
 def main():
